@@ -4,7 +4,7 @@ from .. import core, epcheck, epflow, facflow, gen, oracles
 from ..check import load_known
 
 THEOREMS = ["C13_rer_def", "C13_primary_energy_nonneg", "C13_rer_range", "C13_nrb_le_rer", "C13_onst_nonneg",
-            "C13_nested_partial", "C13_rer_zero_total", "C13_nested_refuted"]
+            "C13_nested_partial", "C13_rer_zero_total", "C13_nested_refuted", "C13_nearby_negative_refuted"]
 CONE = re.compile(r"^(rer|balance/we/b/|balance_cr/[A-Z0-9]+/we/(b|del_onst|del_cgn|exp_a)/)")
 
 KNOWN = {f["class"]: "%s [%s]" % (f["what"], f["id"]) for f in load_known().get("findings", []) if f.get("property") == "C13"}
@@ -46,8 +46,25 @@ def reg_stage(R, rng, meta):
     meta["coverage"]["regulatory_sets_checked"] = okc
 
 
+CRAFTED = [
+    # the two recorded mechanisms (always reproduced), then buildings close to them for which the nesting does hold
+    ("exported on-site electricity", "CONSUMO, ILU, ELECTRICIDAD, 100\nPRODUCCION, EL_INSITU, 200\n"),
+    ("exported cogeneration from biofuel", "CONSUMO, ILU, ELECTRICIDAD, 20\nCONSUMO, COGEN, BIOCARBURANTE, 108\nPRODUCCION, EL_COGEN, 48\nCONSUMO, CAL, GASNATURAL, 100\n"),
+    ("exported cogeneration from biomass used for nothing else", "CONSUMO, ILU, ELECTRICIDAD, 20\nCONSUMO, COGEN, BIOMASA, 108\nPRODUCCION, EL_COGEN, 48\nCONSUMO, CAL, GASNATURAL, 100\n"),
+    ("exported cogeneration from a district network", "CONSUMO, ILU, ELECTRICIDAD, 20, 30\nCONSUMO, COGEN, RED1, 100, 90\nPRODUCCION, EL_COGEN, 45, 40\n1, CONSUMO, ACS, EAMBIENTE, 50, 50\n1, CONSUMO, ACS, ELECTRICIDAD, 20, 20\n"),
+    ("exported cogeneration from densified biomass, nothing else", "CONSUMO, COGEN, BIOMASADENSIFICADA, 100\nPRODUCCION, EL_COGEN, 40\nCONSUMO, REF, ELECTRICIDAD, 10\n"),
+    ("cogeneration from biomass fully used", "CONSUMO, ILU, ELECTRICIDAD, 80\nCONSUMO, COGEN, BIOMASA, 108\nPRODUCCION, EL_COGEN, 48\n"),
+]
+
+
 def gen_cases_c13(rng, count, prefix="c"):
     cases = []
+    for i, (name, text) in enumerate(CRAFTED):
+        for loc in (("PENINSULA",) if i < 2 else ("PENINSULA", "CANARIAS")):
+            for lm in (False, True):
+                c = epflow.EpCase("%sk%d%s%d" % (prefix, i, loc[0], int(lm)), {"text": text}, {"loc": loc}, {}, [(0.0, 1.0, lm)], tags={"crafted:" + name})
+                c.n = len(text.splitlines()[0].split(",")) - 3
+                cases.append(c)
     for i in range(count):
         lm = rng.random() < 0.5
         b = gen.gen_building(rng, ratio_only=lm, force=rng.choice([set(), {"pv"}, {"chp"}, {"hp"}, {"solar"}]))
@@ -70,4 +87,4 @@ def run(tier, seed):
                        case_gen=gen_cases_c13,
                        level_note="range, definition, RER_nrb <= RER and RER_onst >= 0 proved for all buildings (incl. the "
                                   "cross-carrier cogeneration argument); full nesting proved for buildings that export no "
-                                  "electricity; known finding: exported electricity (C13_nested_refuted)")
+                                  "electricity; known findings: exported on-site electricity (C13_nested_refuted), exported cogenerated electricity from a fuel outside the nearby perimeter (C13_nearby_negative_refuted)")
